@@ -134,18 +134,17 @@ structure Post (hasLogger : Bool) (cbs : List Nat) (target max : Nat) (s0 : St) 
   stay : r.execd = [] → r.s = s0
 
 theorem stepObs_some (v : Variant) (cbs : List Nat) (r : RU) : ∃ r', stepObs v cbs r = some r' := by
-  obtain ⟨s', e, _⟩ := C08_step r.s
-  exact ⟨_, by unfold stepObs; rw [e]⟩
-where
-  C08_step (s : St) : ∃ s', step v s = some ((), s') ∧ True := by
-    obtain ⟨a, s', e, _⟩ := tot_step v s (by intro h; cases h)
-    exact ⟨s', e, trivial⟩
+  obtain ⟨_, s1, e1, _⟩ := tot_service (p := false) v r.latch r.s (by intro h; cases h)
+  obtain ⟨_, s', e, _⟩ := tot_step v s1 (by intro h; cases h)
+  exact ⟨_, by unfold stepObs; rw [e1]; simp only; rw [e]⟩
 
 theorem logIt_s (b : Bool) (r : RU) : (logIt b r).s = r.s := by cases b <;> rfl
 theorem logIt_cycles (b : Bool) (r : RU) : (logIt b r).cycles = r.cycles := by cases b <;> rfl
 theorem logIt_execd (b : Bool) (r : RU) : (logIt b r).execd = r.execd := by cases b <;> rfl
 theorem logIt_onpc (b : Bool) (r : RU) : (logIt b r).onpc = r.onpc := by cases b <;> rfl
 theorem logIt_logs (b : Bool) (r : RU) : (logIt b r).logs = if b then r.logs + 1 else r.logs := by cases b <;> rfl
+theorem logIt_latch (b : Bool) (r : RU) : (logIt b r).latch = r.latch := by cases b <;> rfl
+theorem logIt_wdm (b : Bool) (r : RU) : (logIt b r).wdm = r.wdm := by cases b <;> rfl
 
 theorem post_break {hasLogger cbs target max s0 r} (inv : Inv hasLogger cbs target max s0 r)
     (hc : r.cycles < max) (ht : pc24 r.s.r = target) : Post hasLogger cbs target max s0 (logIt hasLogger r) true := by
@@ -166,14 +165,21 @@ theorem inv_step {v hasLogger cbs target max s0 r r'} (inv : Inv hasLogger cbs t
     (hc : r.cycles < max) (ht : pc24 r.s.r ≠ target) (hr' : stepObs v cbs (logIt hasLogger r) = some r') :
     Inv hasLogger cbs target max s0 r' ∧ r.cycles + 1 ≤ r'.cycles := by
   unfold stepObs at hr'
-  rw [logIt_s, logIt_cycles, logIt_execd, logIt_onpc, logIt_logs] at hr'
-  cases hs : step v r.s with
+  rw [logIt_s, logIt_cycles, logIt_execd, logIt_onpc, logIt_logs, logIt_latch, logIt_wdm] at hr'
+  cases hsv : service v r.latch r.s with
+  | none => rw [hsv] at hr'; cases hr'
+  | some p1 =>
+  obtain ⟨u1, s1⟩ := p1
+  rw [hsv] at hr'
+  simp only at hr'
+  have kp := keep_service v r.latch r.s u1 s1 hsv
+  cases hs : step v s1 with
   | none => rw [hs] at hr'; cases hr'
   | some p =>
     obtain ⟨u, s'⟩ := p
     rw [hs] at hr'
     cases hr'
-    have bk := step_book v r.s s' hs
+    have bk := step_book v s1 s' hs
     refine ⟨⟨?_, ?_, ?_, ?_, ?_⟩, by simp only; omega⟩
     · intro e he
       rcases List.mem_cons.mp he with rfl | he
@@ -183,7 +189,7 @@ theorem inv_step {v hasLogger cbs target max s0 r r'} (inv : Inv hasLogger cbs t
       split <;> simp [inv.onpc]
     · cases hasLogger <;> simp [inv.logs]
     · simp only
-      rw [bk.2.1, inv.total]
+      rw [bk.2.1, kp.1, inv.total]
       apply BitVec.eq_of_toNat_eq
       simp [BitVec.toNat_add, BitVec.toNat_ofNat, BitVec.toNat_setWidth]
       omega
@@ -215,19 +221,24 @@ theorem loop_done (v : Variant) (hasLogger : Bool) (cbs : List Nat) (target max 
     · rw [if_neg hc]
       exact ⟨r, _, rfl, post_exhausted inv hc⟩
 
-/-- **C12 (RunUntil)** for every variant, program, start state, target and budget: the call returns (the model
-neither runs out of fuel nor crashes) and the result satisfies `Post` -/
-theorem runUntil_terminates (v : Variant) (hasLogger : Bool) (cbs : List Nat) (target max : Nat) (s : St) :
-    ∃ r b, runUntil v hasLogger cbs target max s = .done r b ∧ Post hasLogger cbs target max s r b := by
-  apply loop_done v hasLogger cbs target max s max { s := s }
+/-- **C12 (RunUntil)** for every variant, program, start state, target, budget and value of the interrupt latch on entry:
+the call returns (the model neither runs out of fuel nor crashes) and the result satisfies `Post` -/
+theorem runUntilL_terminates (v : Variant) (hasLogger : Bool) (cbs : List Nat) (target max latch : Nat) (s : St) :
+    ∃ r b, runUntilL v hasLogger cbs target max latch s = .done r b ∧ Post hasLogger cbs target max s r b := by
+  apply loop_done v hasLogger cbs target max s max { s := s, latch := latch }
   · exact ⟨(by intro e h; cases h), rfl, (by cases hasLogger <;> rfl), (by simp), fun _ => rfl⟩
   · simp
+
+/-- … in particular with no interrupt pending -/
+theorem runUntil_terminates (v : Variant) (hasLogger : Bool) (cbs : List Nat) (target max : Nat) (s : St) :
+    ∃ r b, runUntil v hasLogger cbs target max s = .done r b ∧ Post hasLogger cbs target max s r b :=
+  runUntilL_terminates v hasLogger cbs target max 0 s
 
 /-- executes nothing if the CPU is already there -/
 theorem already_there (v : Variant) (hasLogger : Bool) (cbs : List Nat) (target max : Nat) (s : St)
     (h : pc24 s.r = target) :
     ∃ r, runUntil v hasLogger cbs target max s = .done r true ∧ r.s = s ∧ r.execd = [] ∧ r.onpc = [] ∧ r.wdm = [] := by
-  unfold runUntil
+  unfold runUntil runUntilL
   cases max with
   | zero =>
     refine ⟨{ s := s }, ?_, rfl, rfl, rfl, rfl⟩
